@@ -105,6 +105,9 @@ def plan(tier):
 
 def check_doc(doc, acc, sub='docs', fresh=False):
     case = dict(s=doc.text, items=repr(doc.items), devs={str(k): v for k, v in doc.devs.items()})
+    if docgen.bracket_under_nested_pair(doc.items):
+        acc.count('known_c02_finding')      # recorded C02 finding: such a document is not parsed as written
+        return
     acc.count('evaluations')
     st, res = run_guarded(contexts.parse, doc.text, 'C', False)
     if st != 'ok':
